@@ -16,7 +16,7 @@ def _as_alt(x):
     return int(x) if float(x).is_integer() else x
 
 
-def build(sh, normalize_kv=None, span_func=None, cls=None, evaluator=None, share_kv=False, alt_repr=False, **extra):
+def build(sh, normalize_kv=None, span_func=None, cls=None, evaluator=None, share_kv=False, alt_repr=False, edit_back=False, **extra):
     """spec shape (JSON form) -> geomdl object.  Raw (non-[0,1]) knot vectors are kept raw unless normalize_kv=True.
     share_kv: directions with equal knot vectors are given the very same list object (as a caller writing
     ``s.knotvector_u = kv; s.knotvector_v = kv`` does)."""
@@ -62,6 +62,15 @@ def build(sh, normalize_kv=None, span_func=None, cls=None, evaluator=None, share
         o.knotvector_u, o.knotvector_v, o.knotvector_w = _U
     if evaluator is not None:
         o.evaluator = evaluator
+    if edit_back and f["rat"]:
+        # another way to reach the same definition: the first weight is wrong at first (doubled), then corrected by the idiom
+        # ``w = obj.weights; w[0] = ...; obj.weights = w`` (the list the getter returned is edited and assigned back)
+        wrong = [list(q) for q in f["P"]]
+        wrong[0] = [c * 2.0 for c in wrong[0]]
+        o.set_ctrlpts(wrong, *f["size"])
+        w_ = o.weights
+        w_[0] = w_[0] / 2.0
+        o.weights = w_
     if not alt_repr and not share_kv:
         _handed.append(_P)
         if normalize_kv:
